@@ -360,6 +360,8 @@ impl<'c, Param, Yield, Return> Coroutine<'c, Param, Yield, Return> {
             #[allow(clippy::missing_const_for_thread_local)]
             static STACK_INFOS: RefCell<VecDeque<StackInfo>> = const { RefCell::new(VecDeque::new()) };
         }
+        #[cfg(feature = "verif")]
+        crate::verif::note_thread_stack_depth(STACK_INFOS.with(|s| s.borrow().len()));
         if let Some(last_stack_info) = STACK_INFOS.with(|s| s.borrow().back().copied()) {
             let remaining_stack = psm::stack_pointer() as usize - last_stack_info.stack_bottom;
             if remaining_stack >= red_zone {
@@ -373,11 +375,15 @@ impl<'c, Param, Yield, Return> Coroutine<'c, Param, Yield, Return> {
             impl Drop for ThreadStackGuard {
                 fn drop(&mut self) {
                     _ = STACK_INFOS.with(|s| s.borrow_mut().pop_back());
+                    #[cfg(feature = "verif")]
+                    crate::verif::note_thread_stack_depth(STACK_INFOS.with(|s| s.borrow().len()));
                 }
             }
             STACK_INFOS.with(|s| {
                 s.borrow_mut().push_back(StackInfo::from(&stack));
             });
+            #[cfg(feature = "verif")]
+            crate::verif::note_thread_stack_depth(STACK_INFOS.with(|s| s.borrow().len()));
             let guard = ThreadStackGuard;
             let r = corosensei::on_stack(stack, callback);
             drop(guard);
